@@ -19,6 +19,11 @@ def problem_relevant(p):
     return False
 
 
+# units that belong to ANOTHER quantity's conversions: a recognised unit name under the wrong quantity must change nothing
+CROSS = {"ELECTRICAL_CHARGE": "C", "ANGULAR_VELOCITY": "deg", "GEOGRAPHICAL_LATITUDE": "deg", "GEOGRAPHICAL_LONGITUDE": "Deg", "DISTANCE": "f", "TEMPERATURE": "deg",
+         "ANGLE": "c", "SPEED": "bar", "PRESSURE": "kts", "LENGTH": "psi", "POTENTIAL_DIFFERENCE": "kts", "TIME": "c", "DURATION": "F", "VOLUME": "bar", "FREQUENCY": "deg"}
+
+
 def suite_units(ctx):
     harness.load_repo()
     db = pgncorr.Db(ctx["repo"])
@@ -26,7 +31,7 @@ def suite_units(ctx):
     s = deccorr.DecSuite("unit-conversions", "every database field with a convertible quantity (TEMPERATURE, PRESSURE, ANGLE, SPEED): raw values across the field's range (ends, zero, NA, random; "
                          "all values of 16-bit fields in the thorough tier) decoded under preference maps in mixed letter case, unrecognised units and maps for other quantities, vs the model")
     prefs = [{"TEMPERATURE": "C", "ANGLE": "Deg", "SPEED": "KTS", "PRESSURE": "bar"}, {"TEMPERATURE": "F", "PRESSURE": "PSI"}, {"TEMPERATURE": "kelvin", "ANGLE": "grad", "SPEED": "mph"},
-             {"PRESSURE": "Bar"}, {"PRESSURE": "kPa", "TEMPERATURE": "C", "SPEED": "mph", "ANGLE": "deg"}, {"TEMPERATURE": "K", "PRESSURE": "psi", "ANGLE": "rad", "SPEED": "kts"}]
+             {"PRESSURE": "Bar"}, {"PRESSURE": "kPa", "TEMPERATURE": "C", "SPEED": "mph", "ANGLE": "deg"}, {"TEMPERATURE": "K", "PRESSURE": "psi", "ANGLE": "rad", "SPEED": "kts"}, CROSS]
     k = 0
     done = set()
     for sfx, p in db.defs.items():
@@ -34,6 +39,18 @@ def suite_units(ctx):
             continue
         qf = [(f, o) for f, o in pgncorr.layout(p) if f.get("PhysicalQuantity") in ("TEMPERATURE", "PRESSURE", "ANGLE", "SPEED")]
         if not qf:
+            if any(f.get("PhysicalQuantity") in CROSS for f in p["Fields"]):
+                # a definition with other quantities only: one legal and one random payload under the cross-quantity map
+                k += 1
+                name = f"x{k}"
+                real = deccorr.Real({"units": CROSS})
+                s.add(f"dec.new {name} {deccorr.cfg_spec({'units': CROSS})}", "ok", "new")
+                for x in (pgncorr.base_payload(p, rnd, "zero"), pgncorr.base_payload(p, rnd, "rand")):
+                    nb = max(1, (p.get("Length") or (x.bit_length() + 7) // 8))
+                    inp = (p["PGN"], 3, 1, 255, (x & ((1 << (8 * nb)) - 1)).to_bytes(nb, "little"), True, False)
+                    o, m = real.feed(inp)
+                    s.add(deccorr.feed_line(name, inp), f"{o} #0", "cross-" + o.split()[0])
+                real.close()
             continue
         base = pgncorr.base_payload(p, rnd, "zero")
         pls = [base]
@@ -48,7 +65,7 @@ def suite_units(ctx):
             done.add(key)
             pls += [(base & ~(((1 << n) - 1) << o)) | ((v & ((1 << n) - 1)) << o) for v in vals]
         k += 1
-        for j, pr in enumerate(prefs if k % 7 == 0 else [prefs[0], prefs[1], prefs[4 + k % 2]]):
+        for j, pr in enumerate(prefs if k % 7 == 0 else [prefs[0], prefs[1], prefs[4 + k % 2], CROSS]):
             name = f"u{k}_{j}"
             real = deccorr.Real({"units": pr})
             s.add(f"dec.new {name} {deccorr.cfg_spec({'units': pr})}", "ok", "new")
@@ -82,7 +99,7 @@ def monitor(ctx):
         if not all("BitOffset" in f and "BitLength" in f for f in p["Fields"]) or not any(f.get("PhysicalQuantity") for f in p["Fields"]):
             continue
         pr = rnd.choice([{"TEMPERATURE": "C", "ANGLE": "DEG", "SPEED": "Kts", "PRESSURE": "BAR"}, {"TEMPERATURE": "f", "PRESSURE": "psi"}, {"TEMPERATURE": "x", "ANGLE": "rad"},
-                         {"PRESSURE": "kPa", "TEMPERATURE": "C", "SPEED": "mph", "ANGLE": "deg"}, {"TEMPERATURE": "K", "PRESSURE": "psi", "ANGLE": "rad", "SPEED": "kts"}])
+                         {"PRESSURE": "kPa", "TEMPERATURE": "C", "SPEED": "mph", "ANGLE": "deg"}, {"TEMPERATURE": "K", "PRESSURE": "psi", "ANGLE": "rad", "SPEED": "kts"}, CROSS, CROSS])
         d1 = NMEA2000Decoder(preferred_units={PQ[k]: v for k, v in pr.items()})
         d0 = NMEA2000Decoder()
         for x in pgncorr.payloads_for(p, rnd, True, 3)[:80]:
